@@ -13,14 +13,16 @@
 (* switching point.  PruneNum/PruneDen = 1/4 is the code's rule; other values are *)
 (* used to demonstrate that TLC finds an unsound pruning rule.                    *)
 EXTENDS FPSRef, TLC
-CONSTANTS N, Coords, FFNums, PruneNum, PruneDen   \* full_fraction = k/128, k \in FFNums
+CONSTANTS N, Coords, FFNums, PruneNum, PruneDen,  \* full_fraction = k/128, k \in FFNums
+          Staged     \* TRUE: points are placed one at a time by an action (needed for tlc -simulate with many points: TLC cannot
+                     \* enumerate 16^7 initial states); FALSE: every placement is an initial state (exhaustive runs)
 Item == 1..N
 AllFF == 0..128       \* every result of the calibration (k/128, k < 128) and the explicit value 1.0
-VARIABLES P, sel, haus, vloc, ff, lastActive, branch
-vars == <<P, sel, haus, vloc, ff, lastActive, branch>>
+VARIABLES P, sel, haus, vloc, ff, lastActive, branch, placed
+vars == <<P, sel, haus, vloc, ff, lastActive, branch, placed>>
 NoQ == [i \in Item |-> <<>>]
 D(i, j) == Dist(P, NoQ, 1, 0, i, j)
-Init == /\ P \in [Item -> Coords \X Coords]
+Init == /\ IF Staged THEN P = [i \in Item |-> <<0, 0>>] /\ placed = 0 ELSE P \in [Item -> Coords \X Coords] /\ placed = N
         /\ sel = <<>> /\ haus = [i \in Item |-> INF] /\ vloc = [i \in Item |-> 1]
         /\ ff \in FFNums /\ lastActive = N /\ branch = "none"
 \* dSL[cell] * PruneDen < haus * ...  with dSL = D(centre, c) * PruneNum / PruneDen
@@ -38,14 +40,16 @@ Update(c) ==
      /\ sel' = Append(sel, c)
      /\ lastActive' = Cardinality(act)
      /\ branch' = IF act = {} THEN "skip" ELSE IF full THEN "full" ELSE "sparse"
-     /\ UNCHANGED <<P, ff>>
-First(c) == Len(sel) = 0 /\ Update(c)
+     /\ UNCHANGED <<P, ff, placed>>
+Place(x, y) == /\ placed < N /\ P' = [P EXCEPT ![placed + 1] = <<x, y>>] /\ placed' = placed + 1
+               /\ UNCHANGED <<sel, haus, vloc, ff, lastActive, branch>>
+First(c) == placed = N /\ Len(sel) = 0 /\ Update(c)
 \* np.argmax over the table with selected items masked: the lowest index among the maxima
-Select == /\ Len(sel) > 0 /\ Len(sel) < N
+Select == /\ placed = N /\ Len(sel) > 0 /\ Len(sel) < N
           /\ LET U == Item \ RangeOf(sel)
                  c == SetMin(ArgMaxSet(haus, U))
              IN Update(c)
-Next == (\E c \in Item : First(c)) \/ Select
+Next == (\E c \in Item : First(c)) \/ Select \/ (\E x \in Coords, y \in Coords : Place(x, y))
 Spec == Init /\ [][Next]_vars
 \* refinement of reference FPS (identity mapping on sel / haus)
 TableIsTrue == haus = TrueTable(P, NoQ, 1, 0, N, sel)
